@@ -21,6 +21,7 @@ ASSUMPTIONS = [
     "cuda backend = Numba CUDA simulator",
 ]
 DECIDING_COUNTERS = ["gain_bins[numba]", "gain_bins[numpy]", "gain_bins[cuda]",
+                     "refill_histories[cuda]", "refill_histories[numba]",
                      "decisive_bins[numba]", "decisive_bins[numpy]", "decisive_bins[cuda]"]
 MIN_NONTRIVIAL = {"quick": 60, "thorough": 1000}
 JOBS = {"quick": 9, "thorough": 16}
@@ -65,7 +66,7 @@ def gain_case(rec, seedt, backend, cuda):
         win = {"kind": "callable", "name": str(rng.choice(list(api.CALLABLES)))}  # any window
     if not cuda and backend == "numba" and rng.random() < 0.3:
         backend = "auto"
-    exact = bool(rng.random() < 0.5)
+    exact = bool(rng.random() < 0.5) or cuda
     g = float(rng.choice([-1, 1])) * (2.0 ** int(rng.integers(-10, 11)) if exact
                                       else 10 ** rng.uniform(-3, 3))
     rk = str(rng.choice(["white", "walk", "ar1", "ramp", "sine+noise", "offset1e6",
@@ -93,7 +94,7 @@ def gain_case(rec, seedt, backend, cuda):
     except ValueError as e:
         rec.blocked(f"analysis rejected: {e}")
         return
-    if exact and seedt[-1] % 2 == 0:
+    if exact and (cuda or seedt[-1] % 2 == 0):
         # History: the caller refills the SAME two-channel buffer with another record / gain and
         # analyses again (same analyzer options): the estimate must follow the current contents.
         buf = np.ascontiguousarray(np.vstack([x, y]))
